@@ -50,6 +50,10 @@ CHECKS["C16"] = dict(level="model_checking", engine="E1-enum",
    technique="reflection-driven exhaustive enumeration of every mapping level / key path of the configuration types with injected undefined keys, and of every string-valued leaf x value shapes x environment mappings, on the real parser",
    text="Every mapping level of nfpm.Config (36 levels by reflection: top, nested blocks, list elements, overrides.<format>.*, file_info) gets an undefined sibling key (3 spellings) and every one of the 163 leaf keys is misspelt: the strict parser must reject each (with a parsing control document per level). Every string / *string / list / map leaf x {plain, ${V}, pre-$V-post, '  $E  ', '  padded  '} x {V=val, V=empty, nil mapping}: values without '$' unchanged (documented lists trimmed), fields that configuration.md documents as expandable (table parsed from the docs at run time) substituted through the caller's mapping, empty list items dropped; contents src/dst expanded iff expand:true at top level and in overrides; all 16 presence combinations of the passphrase variables.",
    note="Trusted: the documentation's list of expandable fields as parsed by props/c16.go; fields expanded beyond it are not judged when they contain '$'.", ref="§3 C16")
+CHECKS["C17"] = dict(level="model_checking", engine="E1-enum",
+   technique="exhaustive enumeration of every parser key path (reflection) and schema key path in both directions, every documented/accepted enumerated value, and generated valid configurations, judged by the schema the built binary emits (harness validator + python jsonschema on every document); byte comparison with the published file",
+   text="The schema is produced by the nfpm binary built from the tree (-o file and stdout). The published www/docs/static/schema.json must be byte-identical. Every key path of the parser (163, by reflection over yaml tags) and every key path the schema allows are compared both ways and each is exercised with a minimal document through the real strict parser and the validator. Every value of every enumerated setting (13 content types, deb/rpm compression incl. algo:level, signature method/type, version_schema, the five override keys, platforms, documented architectures) in a document the parser accepts and the packager really builds must validate; so must the C01 entry templates and C02 metadata configurations. python jsonschema (Draft 2020-12) re-judges every document of the run and must agree with the harness validator (disagreement = harness error).",
+   note="Trusted: the harness mini-validator for the keyword subset the schema uses (an unknown keyword is a harness error) and python jsonschema as second opinion; reflection over yaml tags as the statement of what the strict parser accepts, confirmed by real parses.", ref="§3 C17")
 NOT_YET = {}
 ALL = ["C%02d" % i for i in range(1, 18)]
 
